@@ -229,15 +229,24 @@ class Emitter:
             out_name = 'unit_as_qty'
             prefix = 'fn unit_as_qty(unit: Self::UnitType)'
             ret = 'Self'
-            b2 = re.sub(r'Self\s*::\s*QuantityType\s*::\s*', 'Self::', body)
+            b2 = re.sub(r'<\s*Self\s*::\s*QuantityType\s+as\s+Quantity\s*>\s*::\s*', '<Self as Quantity>::', body)
+            b2 = re.sub(r'Self\s*::\s*QuantityType\s*::\s*', 'Self::', b2)
             b2, n = re.subn(r'\*\s*self\b', 'unit', b2)
             if b2 == body or n != 1:
                 raise LostAnchor('as_qty: body shape changed (R1)')
             body = b2
             notes.append('R1-transposed')
+        demoted = None
         if 'R3fit' in flags:
-            body = slice_fit(item)
-            notes.append('R3-fit-sliced')
+            try:
+                body = slice_fit(item)
+                notes.append('R3-fit-sliced')
+            except LostAnchor as e:
+                # the function no longer has the shape the R3 slice knows: its contract is kept as an assumption, the
+                # obligation is undecided here (K-fit decides the selection on the compiled function)
+                demoted = str(e)
+                body = '{ unimplemented!() }'
+                notes.append('demoted:' + re.sub(r'[^A-Za-z0-9_.-]+', '_', demoted)[:80])
         if rename:
             new_prefix, n = re.subn(r'\bfn\s+%s\b' % re.escape(name), 'fn ' + rename, prefix, count=1)
             if n != 1:
@@ -252,7 +261,11 @@ class Emitter:
             notes.append('R1-as_qty-call')
         ob_id = f'{self.unit}:{container}::{out_name}'
         kind = 'exec' if body is not None else 'decl'
+        if demoted:
+            kind = 'demoted'
         lines = [indent + self.marker(ob_id, props, kind, item, src.path, '+'.join(notes) if notes else None)]
+        if demoted:
+            lines.append(indent + '#[verifier::external_body] // demoted: ' + demoted)
         for a in attrs:
             lines.append(indent + a)
         head = prefix
@@ -381,7 +394,8 @@ def context_only(text):
     """extracted bodies that are obligations of another unit (gen_hasref): the marker stays, so that a diagnostic inside
     the body is attributed to it, but it belongs to no property here.  (Turning these bodies into external_body was
     tried: Z3 then diverged on one of the non-linear lemmas - the bodies stay as they are.)"""
-    return '\n'.join(re.sub(r' props=\S* kind=exec', ' props= kind=context', l) if l.strip().startswith('//@ob ') else l
+    return '\n'.join(re.sub(r' props=\S* kind=demoted', ' props= kind=demoted', re.sub(r' props=\S* kind=exec', ' props= kind=context', l))
+                     if l.strip().startswith('//@ob ') else l
                      for l in text.split('\n'))
 
 
